@@ -48,6 +48,8 @@ def D(cp, protocol=None, omit=(), fd=None, spec=None, xml=False):
     return {"cp": cp, "protocol": protocol, "omit": omit, "fd": fd, "spec": spec, "xml": xml}
 
 
+XML_TABLE = "xmlspec." + TABLE   # a specification read from ODX text, a nested complex parameter first
+XSUBS = ["CP_CanPhysReqId", "CP_CanRespUSDTId", "CP_DoIPLogicalEcuAddress"]
 DOIP_TABLE = "doip." + TABLE  # a second specification with the short name CP_UniqueRespIdTable
 
 
@@ -105,6 +107,10 @@ HIERARCHIES = {
     "same-name-two-specs": [L("P1", "protocol", [], D(TABLE), D("CP_Baudrate")),
                             L("BV", "base-variant", ["P1"], D(TABLE, spec=DOIP_TABLE)),
                             L("EV", "ecu-variant", ["BV"], D(TABLE, spec=DOIP_TABLE), D("CP_Baudrate"))],
+    # the parameter specification itself is read from ODX text; its first sub-parameter is a nested
+    # complex parameter
+    "spec-from-xml": [L("P1", "protocol", [], D(TABLE, spec=XML_TABLE), D("CP_Baudrate")),
+                      L("EV", "ecu-variant", ["P1"], D(TABLE, spec=XML_TABLE, omit=("CP_CanRespUSDTId",)))],
     # definitions read from ODX text, sub-values left out in the middle of the complex value
     "from-xml": [L("P1", "protocol", [], D(TABLE, xml=True, omit=("CP_CanPhysReqFormat", "CP_CanPhysReqExtAddr", "CP_CanRespUSDTId")),
                    D("CP_Baudrate", xml=True)),
@@ -116,6 +122,8 @@ HIERARCHIES = {
                L("EV", "ecu-variant", ["BV"], D("CP_CANFDBaudrate"))],
     "can-fd-12": [L("P1", "protocol", [], D("CP_CANFDBaudrate"), D(TABLE), D(FDLEN, fd="CANFD,TX_DL=12")),
                   L("EV", "ecu-variant", ["P1"])],
+    **{f"can-fd-dl{n}": [L("P1", "protocol", [], D("CP_CANFDBaudrate"), D(TABLE), D(FDLEN, fd=f"CANFD, TX_DL={n}")),
+                         L("EV", "ecu-variant", ["P1"])] for n in (8, 16, 20, 24, 32, 48, 64, 100)},
     "no-can": [L("P1", "protocol", [], D("CP_DoIPLogicalGatewayAddress"), D("CP_TesterPresentTime")),
                L("EV", "ecu-variant", ["P1"])],
 }
@@ -230,8 +238,8 @@ def run_resolve(sx, cfg, env):
             if d["fd"] is not None:
                 value = d["fd"]
             elif d["cp"] == TABLE:
-                value = []
-                for sn in SUBS:
+                value = [["7"]] if d["spec"] == XML_TABLE else []
+                for sn in (XSUBS if d["spec"] == XML_TABLE else SUBS):
                     if sn in d["omit"]:
                         value.append(None)
                     else:
@@ -270,7 +278,9 @@ def run_resolve(sx, cfg, env):
         [{"name": FDLEN, "default": "TX_DL=8"},
          {"name": TABLE, "sub": [(n, _text(sx, subdefaults[n])) for n in SUBS]},
          {"name": TABLE, "id": DOIP_TABLE, "subset": "doip",
-          "sub": [(n, _text(sx, subdefaults[n])) for n in SUBS]}]
+          "sub": [(n, _text(sx, subdefaults[n])) for n in SUBS]},
+         {"name": TABLE, "id": XML_TABLE, "subset": "xmlspec", "from_xml": True,
+          "sub": [("CP_Nested", [("CP_Inner", "1")])] + [(n, 90000 + j) for j, n in enumerate(XSUBS)]}]
     with warnings.catch_warnings():
         warnings.simplefilter("ignore")
         h = H.build_hierarchy({"specs": specs, "layers": layers})
@@ -311,6 +321,10 @@ def run_resolve(sx, cfg, env):
             d = _def_of(hier, t)
             if sub is None:
                 return defaults[cp] if d["omit"] else content[(t, None)]
+            if d["spec"] == XML_TABLE:
+                if sub not in XSUBS:
+                    return None if False else "any"  # not a sub-parameter of this specification
+                return 90000 + XSUBS.index(sub) if sub in d["omit"] else content[(t, sub)]
             return subdefaults[sub] if sub in d["omit"] else content[(t, sub)]
 
         for meth, cp, sub, unit in ACCESSORS:
